@@ -15,8 +15,12 @@
 
 from __future__ import annotations
 
+import bz2
 import io
 import json as std_json
+import os
+import shutil
+import tempfile
 
 from vlib import c10_records as rec
 from vlib.runner import Violation, code_under_test
@@ -47,6 +51,11 @@ ASSUMPTIONS = [
 
 TAXON_KEY = "taxon"
 AREA_TYPES = {"protocluster", "proto_core", "cand_cluster", "region", "subregion"}
+
+
+def _scratch_dir() -> str:
+    base = "/dev/shm" if os.path.isdir("/dev/shm") and os.access("/dev/shm", os.W_OK) else None
+    return tempfile.mkdtemp(prefix="verif_c10_", dir=base)
 
 
 def _build(spec: dict):
@@ -246,11 +255,32 @@ def check_genbank(spec: dict) -> dict:
         first = rec.canonical_dump(record, strandless_as_forward=True)
         again = rec.canonical_dump(record, strandless_as_forward=True)
     _repeatable(first, again, context)
-    with code_under_test("gb_write_total"):
-        text = rec.genbank_text(record)
-    _repeatable(first, rec.canonical_dump(record, strandless_as_forward=True), context)
+    if spec.get("via_file"):
+        # the file based pair Record.to_genbank / Record.from_genbank
+        from antismash.common.secmet import Record
+        scratch = _scratch_dir()
+        try:
+            path = os.path.join(scratch, "record.gbk")
+            with code_under_test("gb_write_total"):
+                record.to_genbank(path)
+            with open(path, encoding="utf-8") as handle:
+                text = handle.read()
+            _repeatable(first, rec.canonical_dump(record, strandless_as_forward=True), context)
+            with code_under_test("gb_reload_total"):
+                loaded = Record.from_genbank(path, taxon=built.taxon)
+            if len(loaded) != 1:
+                raise Violation("gb_file_record_count", dict(context, records=len(loaded)))
+            reloaded = loaded[0]
+        finally:
+            shutil.rmtree(scratch, ignore_errors=True)
+        classes.append("via_file")
+    else:
+        with code_under_test("gb_write_total"):
+            text = rec.genbank_text(record)
+        _repeatable(first, rec.canonical_dump(record, strandless_as_forward=True), context)
+        with code_under_test("gb_reload_total"):
+            reloaded = rec.record_from_genbank_text(text, built.taxon)
     with code_under_test("gb_reload_total"):
-        reloaded = rec.record_from_genbank_text(text, built.taxon)
         second = rec.canonical_dump(reloaded, strandless_as_forward=True)
     found = _differences("gb", first, second, context)
     with code_under_test("gb_rewrite_total"):
@@ -322,12 +352,34 @@ def check_results(spec: dict) -> dict:
     with code_under_test("results_write_total"):
         first = rec.canonical_dump(record)
         results = AntismashResults("input.gbk", [record], [{}], "7.1.0", taxon=built.taxon)
-        handle = io.StringIO()
-        results.write_to_file(handle)
-        text = handle.getvalue()
-    _repeatable(first, rec.canonical_dump(record), context)
-    with code_under_test("results_reload_total"):
-        loaded = AntismashResults.from_file(io.StringIO(text))
+    route = spec.get("io", "handle")
+    classes.append(f"io_{route}")
+    if route == "handle":
+        with code_under_test("results_write_total"):
+            handle = io.StringIO()
+            results.write_to_file(handle)
+            text = handle.getvalue()
+        _repeatable(first, rec.canonical_dump(record), context)
+        with code_under_test("results_reload_total"):
+            loaded = AntismashResults.from_file(io.StringIO(text))
+    else:
+        # by file name; from_file also reads bzip2 files (recognised by the extension)
+        scratch = _scratch_dir()
+        try:
+            path = os.path.join(scratch, "results.json")
+            with code_under_test("results_write_total"):
+                results.write_to_file(path)
+            with open(path, encoding="utf-8") as handle:
+                text = handle.read()
+            if route == "bz2":
+                path += ".bz2"
+                with bz2.open(path, "wt", encoding="utf-8") as handle:
+                    handle.write(text)
+            _repeatable(first, rec.canonical_dump(record), context)
+            with code_under_test("results_reload_total"):
+                loaded = AntismashResults.from_file(path)
+        finally:
+            shutil.rmtree(scratch, ignore_errors=True)
     if len(loaded.records) != 1 or loaded.taxon != built.taxon or loaded.input_file != "input.gbk" \
             or loaded.version != "7.1.0" or loaded.results != [{}]:
         raise Violation("results_envelope", dict(context, records=len(loaded.records), taxon=loaded.taxon,
@@ -600,6 +652,17 @@ SIGNATURES = {
 }
 
 
+def genbank_specs():
+    from hypothesis import strategies as st
+
+    @st.composite
+    def specs(draw):
+        spec = draw(rec.record_specs())
+        spec["via_file"] = draw(st.sampled_from([False] * 5 + [True]))
+        return spec
+    return specs()
+
+
 def results_specs():
     from hypothesis import strategies as st
 
@@ -608,6 +671,7 @@ def results_specs():
         spec = draw(rec.record_specs(max_len=2500))
         spec["original_id"] = draw(st.sampled_from([None, None, "a very long original identifier.1"]))
         spec["schema"] = draw(st.sampled_from(["same", "same", "absent", 1, 2, 3, 4, 5, 0, 99, -1, "4", 4.5]))
+        spec["io"] = draw(st.sampled_from(["handle", "handle", "handle", "path", "bz2"]))
         return spec
     return specs()
 
@@ -640,6 +704,6 @@ def run(ctx) -> None:
     shards = ctx.pick(8, 16)
     ctx.extra["generated_spec_profile"] = _generator_profile(ctx.pick(150, 1500), ctx.seed)
     ctx.extra["bounds"] = {"record_length": [300, 5000], "genes": [1, 8], "protoclusters": [0, 5], "subregions": [0, 3]}
-    ctx.hyp("genbank", rec.record_specs(), max_examples=ctx.pick(700, 24000), shards=shards)
+    ctx.hyp("genbank", genbank_specs(), max_examples=ctx.pick(700, 24000), shards=shards)
     ctx.hyp("json", rec.record_specs(), max_examples=ctx.pick(500, 16000), shards=shards)
     ctx.hyp("results", results_specs(), max_examples=ctx.pick(300, 8000), shards=shards)
